@@ -50,7 +50,7 @@ def run(tier="quick", seed=0, use_cache=True):
             if isinstance(v, int):
                 tot[k] = tot.get(k, 0) + v
     res.units = {"translation_units": len(out)}
-    res.floor("slot stores of converted values (II)", out["II"]["stats"]["slot_stores"], 10)
+    res.floor("slot stores of converted values (II)", out["II"]["stats"]["slot_stores"], 2)   # conversions centralised in helpers leave few store sites
     res.floor("byte-array conversion sites (fs)", out["fs"]["stats"]["bytes_sites"], 10)
     res.floor("conversion sites with a status (II)", out["II"]["stats"]["conv_status_sites"], 12)
     res.floor("translation units", len(out), 22)
